@@ -284,10 +284,15 @@ def execute(arg):
         elif kind == "assign_norm":
             s = st[1]
             sh = w.obj[s]
-            sh.assign_norm_cont()
-            ov = w.gb.mod("gbasis.integrals.overlap").overlap_integral([sh])
+            try:
+                sh.assign_norm_cont()
+                ov = w.gb.mod("gbasis.integrals.overlap").overlap_integral([sh])
+                unit = bool(np.abs(np.diag(ov) - 1).max() <= 1e-8)
+            except Exception as exc:  # noqa: BLE001     a shell left inconsistent by an earlier (rejected) request
+                unit = False
+                notes.append("assign_norm_cont() on %s raised %s: %s" % (s, type(exc).__name__, exc))
             post = w.snapshot()
-            trace.append({"op": "assign_norm", "obj": s, "n": post[s][1], "unit": bool(np.abs(np.diag(ov) - 1).max() <= 1e-8), "post": post})
+            trace.append({"op": "assign_norm", "obj": s, "n": post[s][1], "unit": unit, "post": post})
         elif kind == "overwrite":
             a, v = st[1], st[2]
             w.obj[a][...] = w.atab[a][v - 1]
@@ -482,8 +487,11 @@ def run(pid, tier, seed, only_case=None):
                 gval(v)
             break
     for n, r in enumerate(out):
-        if isinstance(r, common.ImplFailure):
-            raise tlc.MachineryError(r.msg)
+        if isinstance(r, common.ImplFailure):     # an exception escaped from gbasis in a step the harness did not expect to raise
+            ctx.violation({"function": "behaviour", "kind": "exception escaped"}, "behaviour %d: %s" % (n, r.msg),
+                          {"module": "c19", "case": {"steps": behaviours[n]}})
+            traces.append([])
+            continue
         tr = []
         for ev in r["trace"]:
             e2 = dict(ev)
